@@ -1,6 +1,7 @@
 //! Reference models: written from the property statements and the documented formats,
 //! independently of the implementation.
 pub mod deadline;
+pub mod peerset;
 pub mod routes;
 pub mod wire;
 pub mod x509ref;
